@@ -549,6 +549,88 @@ def pattern_cases(rng, thorough):
     return out
 
 
+def cycle_cases():
+    """TERMINATION on cyclic composition (deterministic, every run): xs:include / xs:import / xs:redefine cycles of length
+    1, 2, 3 that close at the top-level schema document and BELOW it (an included document that includes itself,
+    top -> p -> q -> p, ...), same / different / absent target namespaces, reached through loadGrammar (SAX2XMLReader,
+    XercesDOMParser) and through xsi:schemaLocation / xsi:noNamespaceSchemaLocation during a validating parse; plus cyclic
+    external parameter / general entity references.  Every document is served by name by the in-memory resolver
+    (extspec "name:HEX|name:HEX").  Oracle: as for every parse -- no sanitizer report, no crash (stack overflow), CPU-time
+    bound; with or without errors.  yields (kind, request)"""
+    XS = 'xmlns:xs="http://www.w3.org/2001/XMLSchema"'
+    topo = {"top1": [("top", "top")], "top2": [("top", "p"), ("p", "top")], "top3": [("top", "p"), ("p", "q"), ("q", "top")],
+            "low1": [("top", "p"), ("p", "p")], "low2": [("top", "p"), ("p", "q"), ("q", "p")],
+            "low3": [("top", "p"), ("p", "q"), ("q", "r"), ("r", "p")]}
+    out = []
+
+    def multi(docs):
+        return "|".join("%s:%s" % (n, hx(b)) for n, b in sorted(docs.items()))
+
+    def build(kind, edges, nsmode):
+        names = sorted({a for a, _ in edges} | {b for _, b in edges})
+        docs = {}
+        for n in names:
+            if kind == "import":
+                tns = "urn:%s" % n
+            elif nsmode == "ns":
+                tns = "urn:t"
+            elif nsmode == "chameleon":
+                tns = "urn:t" if n == "top" else None
+            else:
+                tns = None
+            body = ""
+            for a, b in edges:
+                if a != n:
+                    continue
+                if kind == "include":
+                    body += '<xs:include schemaLocation="%s.xsd"/>' % b
+                elif kind == "redefine":
+                    body += '<xs:redefine schemaLocation="%s.xsd"/>' % b
+                elif kind == "import":
+                    body += '<xs:import namespace="urn:%s" schemaLocation="%s.xsd"/>' % (b, b)
+                else:   # mixed: include below the top, import from the top
+                    body += ('<xs:import namespace="urn:t2" schemaLocation="%s.xsd"/>' % b) if a == "top" else \
+                            ('<xs:include schemaLocation="%s.xsd"/>' % b)
+            if kind == "mixed":
+                tns = "urn:t" if n == "top" else "urn:t2"
+            docs[n + ".xsd"] = ('<xs:schema %s%s>%s<xs:element name="e_%s" type="xs:string"/><xs:simpleType name="T_%s">'
+                                '<xs:restriction base="xs:string"/></xs:simpleType></xs:schema>'
+                                % (XS, (' targetNamespace="%s"' % tns) if tns else "", body, n, n)).encode()
+        return docs, ("urn:top" if kind == "import" else "urn:t" if (nsmode in ("ns", "chameleon") or kind == "mixed") else None)
+
+    k = 0
+    for kind in ("include", "import", "redefine", "mixed"):
+        for tname, edges in sorted(topo.items()):
+            if kind == "mixed" and not tname.startswith("low"):
+                continue
+            nsmode = ["none", "ns", "chameleon"][k % 3]
+            docs, tns = build(kind, edges, nsmode)
+            ext = multi(docs)
+            # (a) loadGrammar
+            api, sc = [("sax2", "I"), ("dom", "I"), ("sax2", "S"), ("dom", "S")][k % 4]
+            fl = ["ns", "nsf", "nsx"][k % 3]
+            out.append(("cycle-load-%s-%s" % (kind, tname), "load %s %s always %s 0 %s %s" % (api, sc, fl, hx(docs["top.xsd"]), ext)))
+            # (b) validating parse with a schema location hint
+            if tns:
+                inst = ('<t:e_top xmlns:t="%s" xmlns:xsi="http://www.w3.org/2001/XMLSchema-instance" xsi:schemaLocation="%s top.xsd">x</t:e_top>' % (tns, tns)).encode()
+            else:
+                inst = b'<e_top xmlns:xsi="http://www.w3.org/2001/XMLSchema-instance" xsi:noNamespaceSchemaLocation="top.xsd">x</e_top>'
+            api, sc = [("sax", "I"), ("dom", "S"), ("sax2", "I"), ("domls", "I"), ("sax", "S")][k % 5]
+            out.append(("cycle-parse-%s-%s" % (kind, tname), "parse %s %s %s %s 0 %s %s" % (api, sc, ["always", "auto"][k % 2], fl, hx(inst), ext)))
+            k += 1
+    # cyclic external parameter entities (external subset a.dtd <-> b.dtd) and external general entities x.ent <-> y.ent
+    dtds = {"a.dtd": b'<!ELEMENT r ANY><!ENTITY % b SYSTEM "b.dtd">%b;', "b.dtd": b'<!ENTITY % a SYSTEM "a.dtd">%a;',
+            "s.dtd": b'<!ELEMENT r ANY><!ENTITY % s SYSTEM "s.dtd">%s;'}
+    for i, (sysid, conf) in enumerate([("a.dtd", ("sax", "I", "always", "d")), ("a.dtd", ("dom", "D", "auto", "dx")),
+                                       ("s.dtd", ("sax2", "I", "always", "dn")), ("s.dtd", ("domls", "D", "always", "d"))]):
+        out.append(("cycle-pe", "parse %s %s %s %s 0 %s %s" % (conf + (hx(b'<!DOCTYPE r SYSTEM "%s"><r/>' % sysid.encode()), multi(dtds)))))
+    ents = {"x.ent": b"<a>&y;</a>", "y.ent": b"t&x;", "z.ent": b"&z;"}
+    gdoc = b'<!DOCTYPE r [<!ELEMENT r ANY><!ELEMENT a ANY><!ENTITY x SYSTEM "x.ent"><!ENTITY y SYSTEM "y.ent"><!ENTITY z SYSTEM "z.ent">]><r>&x;&z;</r>'
+    for conf in (("sax", "I", "never", "-"), ("dom", "D", "always", "x"), ("sax2", "W", "never", "n"), ("dom", "I", "auto", "e")):
+        out.append(("cycle-ge", "parse %s %s %s %s 0 %s %s" % (conf + (hx(gdoc), multi(ents)))))
+    return out
+
+
 def gen_cases(ctx, consts):
     rng = ctx.rng
     thorough = ctx.tier == "thorough"
@@ -569,6 +651,8 @@ def gen_cases(ctx, consts):
         a, s, v, f = conf or cfg(base_flags)
         cases.append((kind, "parse %s %s %s %s %s %s %s" % (a, s, v, f, chunks, spec_of(doc_parts), hx(ext))))
 
+    # 0a. termination on cyclic schema / entity composition (deterministic part)
+    cases.extend(cycle_cases())
     # 0. capacity thresholds of validators / scanner structures (deterministic part)
     for kind, doc, ext, cfgs in capacity_cases():
         for conf in cfgs:
